@@ -55,8 +55,8 @@ inductive Op where
   | extend (i n val : Nat)
   /-- `MutableBuffer::truncate(len)` -/
   | truncate (i len : Nat)
-  /-- `Buffer::claim` / `MutableBuffer::claim` into the pool -/
-  | claim (i : Nat)
+  /-- `Buffer::claim` / `MutableBuffer::claim` (through the handle in slot `i`) into pool `p` -/
+  | claim (i p : Nat)
   /-- `Buffer::from_custom_allocation(ptr_i + off, len, Arc::new(holder of buffer_i.clone()))`:
   a buffer whose custom owner keeps another buffer alive (what FFI import does) -/
   | wrap (i d off len : Nat)
@@ -83,10 +83,15 @@ def pushOwner (s : State) (ow : Owner) : State := { s with owners := s.owners ++
 
 /-- a fresh `Arc<Bytes>` with one handle -/
 def mkRegion (bytes : List Nat) (cap : Nat) (kind : Kind) : Region :=
-  { bytes, cap, kind, rc := 1, released := false, relCount := 0, claimed := none }
+  { bytes, cap, kind, rc := 1, released := false, relCount := 0, claimed := none, claimPool := 0 }
 
 /-- deterministic content of a fresh allocation -/
 def pattern (seed len : Nat) : List Nat := (List.range len).map (fun k => (seed + 7 * k) % 256)
+
+/-- a reservation of pool `p` changes from `old` to `new` bytes (`Tracker::resize`, or
+`Tracker::drop` with `new = 0`) -/
+def poolAdjust (pool : Nat → Nat) (p old new : Nat) : Nat → Nat :=
+  fun q => if q = p then pool q - old + new else pool q
 
 def roundUp (n m : Nat) : Nat := if m = 0 then n else (n + m - 1) / m * m
 
@@ -117,7 +122,7 @@ def decOne (r : Nat) (s : State) : State × List Nat :=
     if reg.rc ≤ 1 then
       let s1 : State :=
         { s with regions := s.regions.set r { reg with rc := 0, released := true, relCount := reg.relCount + 1, claimed := none },
-                 pool := s.pool - reg.claimed.getD 0 }
+                 pool := poolAdjust s.pool reg.claimPool (reg.claimed.getD 0) 0 }
       match reg.kind with
       | .standard _ => (s1, [])
       | .custom o => decOwner o s1
@@ -314,7 +319,7 @@ def opExtend (s : State) (i n val : Nat) : State × Out :=
       -- `try_reallocate` resizes an existing reservation to the new `layout.size()`
       let claimed' := reg.claimed.map (fun _ => cap')
       ({ setSlot (setRegion s r { reg with bytes := reg.bytes ++ List.replicate n (val % 256), cap := cap', claimed := claimed' }) i (.mut r (l + n))
-          with pool := s.pool - reg.claimed.getD 0 + claimed'.getD 0 }, .ok)
+          with pool := poolAdjust s.pool reg.claimPool (reg.claimed.getD 0) (claimed'.getD 0) }, .ok)
     | none => (s, .bad)
   | _ => (s, .bad)
 
@@ -328,13 +333,16 @@ def opTruncate (s : State) (i len : Nat) : State × Out :=
     | none => (s, .bad)
   | _ => (s, .bad)
 
-/-- `Bytes::claim` / `MutableBuffer::claim`: replace the reservation by one of `capacity()` -/
-def opClaim (s : State) (i : Nat) : State × Out :=
+/-- `Bytes::claim` / `MutableBuffer::claim`: "replacing any prior reservation" — the old
+reservation is dropped (its size goes back to the pool it was made in) and `capacity()` bytes
+are reserved in pool `p` -/
+def opClaim (s : State) (i p : Nat) : State × Out :=
   match (s.slots[i]?).bind Slot.region? with
   | some r =>
     match s.regions[r]? with
     | some reg =>
-      ({ setRegion s r { reg with claimed := some reg.cap } with pool := s.pool - reg.claimed.getD 0 + reg.cap }, .ok)
+      ({ setRegion s r { reg with claimed := some reg.cap, claimPool := p } with
+          pool := poolAdjust (poolAdjust s.pool reg.claimPool (reg.claimed.getD 0) 0) p 0 reg.cap }, .ok)
     | none => (s, .bad)
   | none => (s, .bad)
 
@@ -447,7 +455,7 @@ def step (s : State) : Op → State × Out
   | .write i pos val => opWrite s i pos val
   | .extend i n val => opExtend s i n val
   | .truncate i len => opTruncate s i len
-  | .claim i => opClaim s i
+  | .claim i p => opClaim s i p
   | .wrap i d off len => opWrap s i d off len
   | .bitAssign i j op boff blen => opBitAssign s i j op boff blen
   | .exportFfi srcs d => opExportFfi s srcs d
@@ -460,7 +468,7 @@ def run (s : State) : List Op → State
   | op :: ops => run (step s op).1 ops
 
 /-- `n` empty slots, nothing allocated -/
-def init (n : Nat) : State := { regions := [], owners := [], slots := List.replicate n .empty, pool := 0 }
+def init (n : Nat) : State := { regions := [], owners := [], slots := List.replicate n .empty, pool := fun _ => 0 }
 
 /-- the slots an operation consumes or overwrites (the end of the lifetime of the handle that
 was there); every other slot keeps its handle -/
@@ -477,7 +485,7 @@ def Op.targets : Op → List Nat
   | .write i .. => [i]
   | .extend i .. => [i]
   | .truncate i _ => [i]
-  | .claim _ => []
+  | .claim _ _ => []
   | .wrap _ d .. => [d]
   | .bitAssign i .. => [i]
   | .exportFfi _ d => [d]
